@@ -131,3 +131,105 @@ fn std_write_all_on_writer() {
     }
 }
 
+
+// ---- prelude R13: the split model (bounded: strings of at most SPLIT_N bytes over {' ', '\r', 'a', '\n'}) --
+const SPLIT_N: usize = 4;
+
+/// executable copy of `splitn_spec` (contracts/spec_v1.rs): piece boundaries (start, end)
+fn splitn_model(s: &[u8], n: usize, out: &mut [(usize, usize); 8]) -> usize {
+    let mut count = 0;
+    let mut start = 0;
+    let mut left = n;
+    while left > 0 {
+        if left == 1 {
+            out[count] = (start, s.len());
+            return count + 1;
+        }
+        // first separator at or after start
+        let mut i = start;
+        while i < s.len() && !(s[i] == b' ' || s[i] == b'\r') {
+            i += 1;
+        }
+        if i >= s.len() {
+            out[count] = (start, s.len());
+            return count + 1;
+        }
+        out[count] = (start, i);
+        count += 1;
+        start = i + 1;
+        left -= 1;
+    }
+    count
+}
+
+#[kani::proof]
+#[kani::unwind(8)]
+fn std_splitn_model() {
+    let len: usize = kani::any();
+    kani::assume(len <= SPLIT_N);
+    let mut buf = [b'a'; SPLIT_N];
+    let mut i = 0;
+    while i < SPLIT_N {
+        let k: u8 = kani::any();
+        kani::assume(k < 4);
+        buf[i] = [b' ', b'\r', b'a', b'\n'][k as usize];
+        i += 1;
+    }
+    let s = std::str::from_utf8(&buf[..len]).unwrap();
+    let n: usize = kani::any();
+    kani::assume(n >= 1 && n <= 3);
+    let mut model = [(0usize, 0usize); 8];
+    let m = splitn_model(s.as_bytes(), n, &mut model);
+    let mut it = s.splitn(n, |c| c == ' ' || c == '\r').peekable();
+    let mut k = 0;
+    while k < 4 {
+        let peeked_none = it.peek().is_none();
+        match it.next() {
+            None => {
+                assert!(peeked_none);
+                assert!(k == m);
+                break;
+            }
+            Some(piece) => {
+                assert!(!peeked_none);
+                assert!(k < m);
+                let (a, b) = model[k];
+                assert!(piece.as_bytes() == &s.as_bytes()[a..b]);
+            }
+        }
+        k += 1;
+    }
+}
+
+// ---- prelude: u16::from_str (bounded: strings of at most 3 bytes over {'+','-','0','1','6',' '}) ---------
+#[kani::proof]
+#[kani::unwind(6)]
+fn std_u16_parse_model() {
+    let len: usize = kani::any();
+    kani::assume(len <= 3);
+    let mut buf = [b'0'; 3];
+    let mut i = 0;
+    while i < 3 {
+        let k: u8 = kani::any();
+        kani::assume(k < 6);
+        buf[i] = [b'+', b'-', b'0', b'1', b'6', b' '][k as usize];
+        i += 1;
+    }
+    let s = std::str::from_utf8(&buf[..len]).unwrap();
+    // model: optional '+', then >= 1 digits, value <= 65535
+    let b = s.as_bytes();
+    let d = if !b.is_empty() && b[0] == b'+' { &b[1..] } else { b };
+    let mut ok = !d.is_empty();
+    let mut v: u32 = 0;
+    let mut j = 0;
+    while j < 3 {
+        if j < d.len() {
+            if d[j].is_ascii_digit() { v = v * 10 + (d[j] - b'0') as u32; } else { ok = false; }
+        }
+        j += 1;
+    }
+    match s.parse::<u16>() {
+        Ok(x) => assert!(ok && x as u32 == v),
+        Err(_) => assert!(!ok || v > 65535),
+    }
+}
